@@ -4,7 +4,8 @@ P="$1"; ID="$2"; TIER="${3:-quick}"
 cd /verif
 git -C /repo diff --quiet || { echo "/repo has uncommitted changes"; exit 2; }
 git -C /repo apply "$P" || { echo "patch does not apply"; exit 3; }
-trap 'git -C /repo checkout -- . ; git -C /repo clean -fdq' EXIT
+# revert, and rebuild the binaries so that nothing built from the patched tree is left in bin/
+trap 'git -C /repo checkout -- . ; git -C /repo clean -fdq; ( cd /repo && GOFLAGS=-mod=mod GOPROXY=off GOSUMDB=off GOTOOLCHAIN=local go build -tags verif -o /verif/bin/yq . ) >/dev/null 2>&1' EXIT
 cp evidence/$ID.json /tmp/ev-$ID.bak 2>/dev/null
 ./check "$ID" "$TIER" > /tmp/tryseed-$ID.log 2>&1; RC=$?
 cp /tmp/ev-$ID.bak evidence/$ID.json 2>/dev/null
